@@ -142,7 +142,11 @@ func (i *Input) next() (byte, error) {
 		// The forward pointer wraps around even if nothing more could be loaded;
 		// otherwise, lexemeBegin, which wraps around too, would never meet it again.
 		i.forward = 0 // beginning of the first half
-	} else if i.buff[i.forward] == eof {
+	}
+
+	// The sentinel is looked for in every case, also right after crossing a boundary:
+	// forward may cross the boundary of an already-loaded half again after a Retract.
+	if i.err == nil && i.buff[i.forward] == eof {
 		i.err = io.EOF
 	}
 
@@ -263,6 +267,12 @@ func (i *Input) Next() (rune, error) {
 // Retract recedes to the last rune in the input.
 func (i *Input) Retract() {
 	if size, ok := i.runeSizes.Pop(); ok {
+		// The end of input is detected ahead of time, right after reading the last rune.
+		// Once that rune is given back, it is the next one to read again.
+		if i.err == io.EOF {
+			i.err = nil
+		}
+
 		i.forward -= size
 		if i.forward < 0 { // adjust the forward pointer if needed
 			i.forward += len(i.buff)
